@@ -287,6 +287,19 @@ class Gen:
             if k == 6:
                 return self.measurement(dims), False, True
             if k == 7:
+                ck = t.weighted([6, 2, 2], "channel.kind")
+                if ck == 1:     # unhashable operations: circuits holding them are unhashable too
+                    self.flags.add("unhashable-op")
+                    self.flags.add("numpy-payload")
+                    return ["kraus", [[[["i", 1], ["i", 0]], [["i", 0], ["i", 0]]],
+                                      [[["i", 0], ["i", 0]], [["i", 0], ["i", 1]]]],
+                            t.pick((None, "kk"), "kraus.key")], False, False
+                if ck == 2:
+                    self.flags.add("unhashable-op")
+                    self.flags.add("numpy-payload")
+                    return ["mixedunitary", [[["f", 1, 2], [[["i", 1], ["i", 0]], [["i", 0], ["i", 1]]]],
+                                             [["f", 1, 2], [[["i", 0], ["i", 1]], [["i", 1], ["i", 0]]]]],
+                            t.pick((None, "mk"), "mixed.key")], False, False
                 return ["channel", t.pick(("depolarize", "amplitude_damp", "phase_damp", "bit_flip", "phase_flip"),
                                           "channel"), t.pick(PROBS, "p")], False, False
             if k == 8:
@@ -296,7 +309,17 @@ class Gen:
                             [[["i", 1], ["i", 0]], [["i", 0], ["c", 0, 1, 1]]],
                             [[["i", 0], ["c", 0, -1, 1]], [["c", 0, 1, 1], ["i", 0]]]), "matrix1")
                 self.flags.add("numpy-payload")
-                return ["matrix", m, None, t.pick((None, "U"), "matrix.name")], True, False
+                opts = {}
+                how = t.weighted([6, 2, 2, 1], "matrix1.storage")
+                if how == 1:
+                    opts["dtype"] = t.pick(("complex128", "complex64"), "matrix1.dtype")
+                elif how == 2:      # zeros written as -0.0
+                    m = [[(["nz"] if x == ["i", 0] else x) for x in row] for row in m]
+                elif how == 3:      # a matrix that is only nearly unitary, accepted because the check is off
+                    m = [[["f", 9, 8], ["i", 0]], [["i", 0], ["i", 1]]]
+                    opts["unitary_check"] = False
+                    self.flags.add("matrix-unchecked")
+                return ["matrix", m, None, t.pick((None, "U"), "matrix.name")] + ([opts] if opts else []), how != 3, False
             if k == 10:
                 return ["wait", self.duration(), [2]], False, False
             if k == 11:
@@ -596,6 +619,42 @@ class Gen:
                            ["moment", [["circuitop", sa, {"repetitions": ["i", 2]}]]]], []]
 
     # -- Pauli algebra / results / tableaux -------------------------------------------------------------------
+    def collide(self):
+        """Two DIFFERENT FrozenCircuits with the SAME hash in one document: CPython has hash(-1) == hash(-2), so
+        twins that differ only in a coordinate -1 / -2 (or in repetitions=-1 / -2 of a nested CircuitOperation)
+        collide.  A memo keyed by hash instead of by value would merge them."""
+        t = self.t
+        self.flags.add("hash-collision-pair")
+        self.flags.add("frozen")
+        self.flags.add("negative-coordinate")
+        where = t.weighted([4, 3, 2], "collide.where")
+        others = [(["lq", 3], 2), (["nq", "c"], 2)][:t.between(0, 2, "collide.others")]
+        if where == 0:
+            qa, qb = ["lq", -1], ["lq", -2]
+        elif where == 1:
+            col = t.pick((0, 2), "collide.col")
+            qa, qb = (["gq", -1, col], ["gq", -2, col]) if t.draw(2, "collide.row") == 0 else (["gq", col, -1], ["gq", col, -2])
+        else:
+            qa = qb = ["lq", 0]
+        pool = [(qa, 2)] + others
+        ms, inv = self.moments(pool, depth=2, max_moments=3)      # depth 2: no nested sub-circuits in here
+        fa = ["frozen", ms, []]
+        if where == 2:
+            # the twins differ in the repetitions of a nested operation (needs an invertible inner circuit)
+            inner = ["frozen", [["moment", [["op", ["g", t.pick(("X", "S", "H"), "collide.inner")], [["lq", 0]]]]]], []]
+            fa = ["frozen", [["moment", [["circuitop", inner, {"repetitions": ["i", -1]}]]]], []]
+            fb = ["frozen", [["moment", [["circuitop", inner, {"repetitions": ["i", -2]}]]]], []]
+        else:
+            fb = _replace(fa, qa, qb)
+        shape = t.weighted([3, 3, 2, 2], "collide.shape")
+        if shape == 0:
+            return ["list", [fa, fb]]
+        if shape == 1:
+            return ["list", [["circuitop", fa, {}], ["circuitop", fb, {}], ["circuitop", fa, {"repetitions": ["i", 2]}]]]
+        if shape == 2:
+            return ["circuit", [["moment", [["circuitop", fa, {}]]], ["moment", [["circuitop", fb, {}]]]]]
+        return ["dict", [["first", fa], ["second", fb]]]
+
     def vendor(self):
         """Vendor gates that are cheap to build, bare or on qubits (optionally with vendor tags)."""
         t = self.t
@@ -649,9 +708,13 @@ class Gen:
     def result(self):
         t = self.t
         recs = []
+        reps = t.pick((1, 2, 3, 0), "result.reps")       # 0: an empty result keeps its 3D shape
         for k in KEYS[:t.between(1, 2, "result.keys")]:
-            reps, inst, bits = t.between(1, 3, "result.reps"), t.between(1, 2, "result.instances"), t.between(1, 3, "result.bits")
-            recs.append([k, [[[t.draw(2, "result.bit") for _ in range(bits)] for _ in range(inst)] for _ in range(reps)]])
+            inst, bits = t.between(1, 2, "result.instances"), t.between(1, 3, "result.bits")
+            recs.append([k, [[[t.draw(2, "result.bit") for _ in range(bits)] for _ in range(inst)] for _ in range(reps)],
+                         [reps, inst, bits]])
+        if reps == 0:
+            self.flags.add("empty-result")
         self.flags.add("numpy-payload")
         return ["result", self.resolver(), recs]
 
@@ -672,8 +735,8 @@ class Gen:
     # -- top level ---------------------------------------------------------------------------------------------
     KINDS = ("qid", "op", "circuit", "frozen", "circuitop", "shared", "gate", "moment", "mkey", "pstring",
              "psum", "dps", "result", "sympy", "tableau", "cliffgate", "resolver", "sweep", "list", "dict",
-             "duration", "phasor", "coupler", "condition", "vendor")
-    WEIGHTS = (6, 8, 10, 8, 10, 8, 6, 4, 3, 4, 2, 3, 3, 3, 3, 2, 2, 2, 4, 2, 1, 2, 4, 4, 4)
+             "duration", "phasor", "coupler", "condition", "vendor", "collide", "lineardict")
+    WEIGHTS = (6, 8, 10, 8, 10, 8, 6, 4, 3, 4, 2, 3, 3, 3, 3, 2, 2, 2, 4, 2, 1, 2, 4, 4, 4, 4, 2)
 
     def value(self, allow_container=True):
         """(kind, recipe)"""
@@ -740,6 +803,13 @@ class Gen:
             return kind, ["phasor", ps, self.param(EXPONENTS, "exponent_neg"), t.pick(EXPONENTS, "exponent_pos")]
         if kind == "vendor":
             return kind, self.vendor()
+        if kind == "collide":
+            return kind, self.collide()
+        if kind == "lineardict":
+            keys = t.pick((("a", "b"), ("x",), (["a", "b"], "c"), ([1, 2],)), "lineardict.keys")
+            if any(isinstance(k, list) for k in keys):
+                self.flags.add("lineardict-tuple-key")
+            return kind, ["lineardict", [[k, t.pick(COEFS, "lineardict.coef")] for k in keys]]
         if kind == "coupler":
             return kind, self.coupler(t.pick((0, 1, 5), "coupler.index"))
         if kind == "list":
@@ -796,11 +866,8 @@ _ROOTS = ("cirq", "cirq_google", "cirq_ionq", "cirq_aqt", "cirq_pasqal")
 _SIG_CACHE = {}
 
 
-def _annotation_of(func_node, arg) -> str:
-    """The annotation (as text) of the parameter that positional index / keyword `arg` of a call to `func_node`
-    binds to, looked up in the tree under test; '' when it cannot be told.  Used to keep None <-> value
-    mutations inside what the signature documents (an `int | None` parameter), instead of feeding None to
-    constructors that do not validate."""
+def _signature_of(func_node):
+    """inspect.signature of the Cirq callable a call node names, looked up in the tree under test (or None)."""
     import importlib
     import inspect
     names = []
@@ -809,7 +876,7 @@ def _annotation_of(func_node, arg) -> str:
         names.append(n.attr)
         n = n.value
     if not isinstance(n, ast.Name) or n.id not in _ROOTS:
-        return ""
+        return None
     dotted = ".".join([n.id] + names[::-1])
     if dotted not in _SIG_CACHE:
         sig = None
@@ -821,7 +888,14 @@ def _annotation_of(func_node, arg) -> str:
         except Exception:  # noqa: BLE001
             sig = None
         _SIG_CACHE[dotted] = sig
-    sig = _SIG_CACHE[dotted]
+    return _SIG_CACHE[dotted]
+
+
+def _annotation_of(func_node, arg) -> str:
+    """The annotation (as text) of the parameter that positional index / keyword `arg` of a call to `func_node`
+    binds to; '' when it cannot be told.  Used to keep None <-> value mutations inside what the signature
+    documents (an `int | None` parameter), instead of feeding None to constructors that do not validate."""
+    sig = _signature_of(func_node)
     if sig is None:
         return ""
     params = list(sig.parameters.values())
@@ -879,7 +953,23 @@ class _Sites(ast.NodeVisitor):
             for i, a in enumerate(node.args):
                 self._consider(node, "args", i, a, (node.func, i))
             for kw in node.keywords:
+                if kw.arg == "dtype" and isinstance(kw.value, ast.Attribute) and isinstance(kw.value.value, ast.Name) \
+                        and kw.value.value.id == "np":
+                    self.sites.append((kw, "value", None, kw.value, "dtype", ""))
                 self._consider(kw, "value", None, kw.value, (node.func, kw.arg) if kw.arg else None)
+            if not self.foreign:
+                # boolean options the stored example leaves at their default: a site that ADDS the keyword
+                # with the other value (ConstantQubitNoiseModel(..., prepend=True))
+                sig = _signature_of(node.func)
+                if sig is not None:
+                    params = list(sig.parameters.values())
+                    positional = [q for q in params if q.kind in (q.POSITIONAL_ONLY, q.POSITIONAL_OR_KEYWORD)]
+                    given = {q.name for q in positional[:len(node.args)]} | {kw.arg for kw in node.keywords}
+                    if not any(isinstance(a, ast.Starred) for a in node.args):
+                        for q in params:
+                            if q.name not in given and isinstance(q.default, bool) \
+                                    and q.kind in (q.POSITIONAL_OR_KEYWORD, q.KEYWORD_ONLY):
+                                self.sites.append((node, "keywords", None, (q.name, not q.default), "addkw", ""))
 
     def _consider(self, parent, field, index, node, argctx):
         if isinstance(parent, ast.Attribute):
@@ -905,6 +995,8 @@ class _Sites(ast.NodeVisitor):
             elif v is None and ann:
                 self.sites.append((parent, field, index, node, "none", ann))
             return
+        if isinstance(node, ast.Dict) and len(node.keys) >= 2 and all(k is not None for k in node.keys):
+            self.sites.append((parent, field, index, node, "dict", ""))
         if isinstance(node, (ast.Tuple, ast.List)) and len(node.elts) >= 2 and all(
                 isinstance(e, ast.Constant) and isinstance(e.value, (int, bool)) for e in node.elts):
             self.sites.append((parent, field, index, node, "seq", ann))
@@ -917,7 +1009,11 @@ def _num_value(node):
     return node.value
 
 
-def mutate_repr(tape, text: str, focus=None):
+_DTYPE_SWAP = {"int64": "float64", "int32": "int64", "float64": "complex128", "float32": "float64",
+               "complex64": "complex128", "uint8": "int64", "bool_": "uint8", "int8": "int64"}
+
+
+def mutate_repr(tape, text: str, focus=None, mode: str = "value"):
     """(mutated text, what was done) -- or (None, reason) when the text has nothing to mutate.  1-3 literals
     are changed: ints -> small ints incl. 0 and negatives, floats -> exact small floats, bools flipped,
     None <-> small value, strings -> another short string, sequences of ints reversed / rotated."""
@@ -927,7 +1023,13 @@ def mutate_repr(tape, text: str, focus=None):
         return None, "unparsable"
     v = _Sites()
     v.visit(tree)
-    sites = v.sites
+    if mode == "storage":
+        # respellings that must give an EQUAL value: 1 -> 1.0, 0.0 -> -0.0, another array dtype, a dict literal
+        # written in the opposite order
+        sites = [x for x in v.sites if x[4] in ("dict", "dtype") or (x[4] == "num" and (
+            isinstance(_num_value(x[3]), int) or _num_value(x[3]) == 0.0))]
+    else:
+        sites = [x for x in v.sites if x[4] not in ("dict", "dtype")]
     if not sites:
         return None, "no-literals"
     done = []
@@ -944,6 +1046,36 @@ def mutate_repr(tape, text: str, focus=None):
         used.add(k)
         parent, field, index, node, kind, ann = sites[k]
         none_ok = ("None" in ann or "Optional" in ann)
+        if kind == "addkw":
+            name, value = node
+            parent.keywords.append(ast.keyword(arg=name, value=ast.Constant(value=value)))
+            done.append(f"+{name}={value}")
+            continue
+        if kind == "dict":
+            node.keys.reverse()
+            node.values.reverse()
+            done.append("dict-reversed")
+            continue
+        if kind == "dtype":
+            new = _DTYPE_SWAP.get(node.attr)
+            if new is None:
+                continue
+            node.attr = new
+            done.append(f"dtype->{new}")
+            continue
+        if mode == "storage":
+            old = _num_value(node)
+            if isinstance(old, float):
+                repl = ast.UnaryOp(op=ast.USub(), operand=ast.Constant(value=0.0))
+                done.append("0.0->-0.0")
+            else:
+                repl = _const(float(old))
+                done.append("int->float")
+            if index is None:
+                setattr(parent, field, repl)
+            else:
+                getattr(parent, field)[index] = repl
+            continue
         if kind == "num":
             old = _num_value(node)
             to_none = none_ok and tape.chance(1, 4, "mutate.to-none")
@@ -991,3 +1123,68 @@ def mutate_repr(tape, text: str, focus=None):
         return None, "no-change"
     ast.fix_missing_locations(tree)
     return ast.unparse(tree), "+".join(done)
+
+
+def _replace(recipe, old, new):
+    """Deep copy of a recipe tree with every sub-tree equal to `old` replaced by `new`."""
+    if recipe == old:
+        return new
+    if isinstance(recipe, list):
+        return [_replace(x, old, new) for x in recipe]
+    if isinstance(recipe, dict):
+        return {k: _replace(v, old, new) for k, v in recipe.items()}
+    return recipe
+
+
+def storage_variant(tape, recipe):
+    """(twin recipe, what) -- the same generated value spelled differently: integer parameters as floats, zeros
+    as -0.0, matrices with another dtype.  None when the recipe has nothing to respell."""
+    sites = []
+
+    def walk(r, path):
+        if isinstance(r, list):
+            if r and r[0] == "i" and len(r) == 2 and isinstance(r[1], int):
+                sites.append((path, "int"))
+                return
+            if r and r[0] == "f" and len(r) == 3 and r[1] == 0:
+                sites.append((path, "zero"))
+                return
+            if r and r[0] == "matrix":
+                sites.append((path, "matrix"))
+            for i, x in enumerate(r):
+                walk(x, path + (i,))
+        elif isinstance(r, dict):
+            for k, x in r.items():
+                walk(x, path + (k,))
+
+    walk(recipe, ())
+    if not sites:
+        return None, "nothing"
+    import copy as _copy
+    twin = _copy.deepcopy(recipe)
+    done = []
+    for _ in range(1 + tape.draw(2, "twin.count")):
+        path, kind = sites[tape.draw(len(sites), "twin.site")]
+        node = twin
+        for k in path[:-1]:
+            node = node[k]
+        last = path[-1] if path else None
+        target = node[last] if path else twin
+        if kind == "int" and target[0] == "i":
+            node[last] = ["f", target[1], 1]
+            done.append("int->float")
+        elif kind == "zero" and target[0] == "f":
+            node[last] = ["nz"]
+            done.append("-0.0")
+        elif kind == "matrix" and target[0] == "matrix":
+            opts = dict(target[4]) if len(target) > 4 else {}
+            opts["dtype"] = tape.pick(("complex128", "float64", "complex64", "int64"), "twin.dtype")
+            new = list(target[:4]) + [opts]
+            if path:
+                node[last] = new
+            else:
+                twin = new
+            done.append("dtype")
+    if twin == recipe or not done:
+        return None, "no-change"
+    return twin, "+".join(done)
